@@ -84,7 +84,7 @@ inline std::string baseForm(const std::string &w) {
   return w.substr(0, p);
 }
 
-inline Gram genGrammar(Choices &c, int wJsgf = 4, int wFsg = 4, int wAlign = 2) {
+inline Gram genGrammar(Choices &c, int wJsgf = 4, int wFsg = 4, int wAlign = 2, const std::vector<std::string> *extra = nullptr) {
   Gram g;
   const auto &V = vocab();
   // small per-case alphabet, biased toward the words of the bundled recording
@@ -97,6 +97,10 @@ inline Gram genGrammar(Choices &c, int wJsgf = 4, int wFsg = 4, int wAlign = 2) 
     if (!dup) words.push_back(w);
   }
   if (words.size() < 2) words = {"go", "forward"};
+  if (extra) { // spellings that JSGF text cannot carry: FSG / alignment text only
+    wJsgf = 0;
+    for (int i = 0; i < 3; ++i) words.push_back((*extra)[(size_t)c.range(0, (int64_t)extra->size() - 1)]);
+  }
   size_t kind = c.weighted({wJsgf, wFsg, wAlign});
   if (kind == 0) {
     g.kind = Gram::JSGF;
@@ -166,7 +170,7 @@ inline Gram genGrammar(Choices &c, int wJsgf = 4, int wFsg = 4, int wAlign = 2) 
     for (int i = 0; i < n; ++i) {
       std::string w;
       // bias: the words of the bundled recording in order
-      if (c.coin(50) && i < 4) w = vocab()[(size_t)i];
+      if (!extra && c.coin(50) && i < 4) w = vocab()[(size_t)i];
       else w = words[(size_t)c.range(0, (int64_t)words.size() - 1)];
       g.alignWords.push_back(w);
       if (i) t += WS[c.weighted({8, 1, 1, 1, 1})];
